@@ -30,6 +30,33 @@ func coqEnts(es []ent) string {
 	return hx.List(s)
 }
 
+// knownLess is the comparison recorded as known finding C36 (`a.off<b.off || a.len>b.len`);
+// explainedByKnown reports whether out is what insertion sort (Go's sort for n<=12) with it yields.
+func explainedByKnown(in, out []ent) bool {
+	a := append([]ent(nil), in...)
+	for i := 1; i < len(a); i++ {
+		for j := i; j > 0 && (a[j].Off < a[j-1].Off || a[j].Len > a[j-1].Len); j-- {
+			a[j], a[j-1] = a[j-1], a[j]
+		}
+	}
+	if len(a) != len(out) {
+		return false
+	}
+	for i := range a {
+		if a[i] != out[i] {
+			return false
+		}
+	}
+	return true
+}
+
+func unsortedSig(in, out []ent) string {
+	if explainedByKnown(in, out) {
+		return "unsorted-output"
+	}
+	return "unsorted-output:not-explained-by-known-less"
+}
+
 func sortedOK(es []ent) bool {
 	for i := 0; i+1 < len(es); i++ {
 		a, b := es[i], es[i+1]
@@ -107,7 +134,7 @@ func main() {
 		}
 		c.Sample(map[string]interface{}{"input": in, "observed": out})
 		if !sortedOK(out) {
-			c.Violate("unsorted-output", fmt.Sprintf("SortEntities(%v) = %v is not ordered by (offset asc, length desc)", in, out),
+			c.Violate(unsortedSig(in, out), fmt.Sprintf("SortEntities(%v) = %v is not ordered by (offset asc, length desc)", in, out),
 				sh, ix, map[string]interface{}{"input": in, "observed": out})
 		}
 	}
@@ -167,27 +194,53 @@ func main() {
 		}
 		var order []pre
 		off := 0
-		k := c.Rng.Range(1, 5)
+		k := c.Rng.Range(1, 6)
+		type open struct {
+			tok entity.Token
+			f   int
+			off int
+		}
+		var stack []open
+		has := func(id uint32, o int) bool {
+			for _, x := range order {
+				if x.id == id && x.off == o {
+					return true
+				}
+			}
+			return false
+		}
+		closeTop := func() {
+			t := stack[len(stack)-1]
+			stack = stack[:len(stack)-1]
+			if off == t.off || has(fmts[t.f].id, t.off) {
+				return // empty range or ambiguous identity: do not apply
+			}
+			t.tok.Apply(&b, fmts[t.f].f)
+			order = append(order, pre{fmts[t.f].id, t.off})
+		}
+		endsPlain := false
 		for j := 0; j < k; j++ {
 			txt := []string{"a", "bc", "def", "x y", "\U0001F600", "q  "}[c.Rng.Intn(6)]
-			nf := c.Rng.Intn(4)
-			if j == k-1 && nf == 0 {
-				nf = 1
+			switch c.Rng.Intn(6) {
+			case 0: // open a token: the enclosing entity is appended later, when it is applied
+				stack = append(stack, open{b.Token(), c.Rng.Intn(len(fmts)), off})
+				continue
+			case 1:
+				if len(stack) > 0 {
+					closeTop()
+				}
+				continue
 			}
+			nf := c.Rng.Intn(4)
 			if nf == 0 {
 				b.Plain(txt)
+				endsPlain = true
 			} else {
 				start := c.Rng.Intn(len(fmts))
 				var fs []entity.Formatter
 				for q := 0; q < nf && q < 2; q++ {
 					f := fmts[(start+q*(1+c.Rng.Intn(2)))%len(fmts)]
-					dup := false
-					for _, o := range order {
-						if o.id == f.id && o.off == off {
-							dup = true
-						}
-					}
-					if dup {
+					if has(f.id, off) {
 						continue
 					}
 					fs = append(fs, f.f)
@@ -195,11 +248,24 @@ func main() {
 				}
 				if len(fs) == 0 {
 					b.Plain(txt)
+					endsPlain = true
 				} else {
 					b.Format(txt, fs...)
+					endsPlain = false
 				}
 			}
 			off += entity.ComputeLength(txt)
+		}
+		for len(stack) > 0 {
+			closeTop()
+		}
+		if len(order) == 0 {
+			b.Bold("z")
+			order = append(order, pre{tg.MessageEntityBoldTypeID, off})
+			endsPlain = false
+		}
+		if endsPlain {
+			c.Count("builder:ends-with-plain")
 		}
 		var es []tg.MessageEntityClass
 		p, _ := hx.Recover(func() { _, es = b.Complete() })
@@ -219,7 +285,7 @@ func main() {
 					tag = q
 				}
 			}
-			if tag < 0 {
+			if tag < 0 || in[tag].Tag == tag && in[tag].Len != 0 {
 				ok = false
 				break
 			}
@@ -227,12 +293,24 @@ func main() {
 			in[tag] = ent{e.GetOffset(), e.GetLength(), tag}
 		}
 		if !ok {
-			c.Violate("builder-panic-or-count", "Builder.Complete returned an entity that was never formatted", -1, 0, nil)
+			c.Count("builder:skipped-unidentifiable") // offset clamped by the trailing-space fix or ambiguous identity
 			continue
+		}
+		nested := false
+		for x := range in {
+			for y := x + 1; y < len(in); y++ {
+				if in[x].Off == in[y].Off && in[x].Len < in[y].Len {
+					nested = true
+				}
+			}
+		}
+		if nested {
+			c.Count("builder:nested-inner-first")
+			c.Nontrivial(fmt.Sprint("b", in))
 		}
 		sh, ix := c.Case(hx.Tuple(coqEnts(in), coqEnts(out)), map[string]interface{}{"builder": true, "input": in, "observed": out})
 		if !sortedOK(out) {
-			c.Violate("unsorted-output", fmt.Sprintf("Builder.Complete entities %v not ordered (append order %v)", out, in), sh, ix, map[string]interface{}{"builder": true, "input": in, "observed": out})
+			c.Violate(unsortedSig(in, out), fmt.Sprintf("Builder.Complete entities %v not ordered (append order %v)", out, in), sh, ix, map[string]interface{}{"builder": true, "input": in, "observed": out})
 		}
 	}
 	c.Obs.Rule = "entity lists of <=12 elements (insertion-sort range of Go's sort.Sort): 2 corpus lists, all permutations of tie-heavy multisets, random lists over offsets/lengths 0..5, plus Builder.Complete on random formatted pieces; non-trivial = distinct input that has an offset tie with different lengths and is not already sorted"
